@@ -771,38 +771,64 @@ def _eval_rat(ctx, r, env):
     return n / d
 
 
-def _eval_bool(ctx, t, env):
-    """truth value of a Boolean term (and/or/not over eq/ne/lt/le comparisons of numeric terms) or None"""
+def _prop_key(ctx, t):
+    """(key, negated) identifying an opaque Boolean term as a propositional variable; complementary comparisons
+    (eq/ne, is/isnot, in/notin, lt/le with swapped sides) share one variable"""
     h = ctx.head_of(t)
-    if h is None:
-        val = _eval_rat(ctx, t, env)
-        return None if val is None else bool(val)
-    a = ctx.args_of(t)
-    if h[0] == "const" and isinstance(h[1], bool):
-        return h[1]
-    if h[0] in ("and", "or"):
-        vals = [_eval_bool(ctx, x, env) for x in a]
-        if any(x is None for x in vals):
-            return None
-        return all(vals) if h[0] == "and" else any(vals)
-    if h[0] == "not":
-        x = _eval_bool(ctx, a[0], env)
-        return None if x is None else not x
-    if h[0] == "cmp" and h[1] in ("eq", "ne", "lt", "le"):
-        x, y = _eval_rat(ctx, a[0], env), _eval_rat(ctx, a[1], env)
-        if x is None or y is None:
-            return None
-        return {"eq": x == y, "ne": x != y, "lt": x < y, "le": x <= y}[h[1]]
+    if h and h[0] == "cmp":
+        a = ctx.args_of(t)
+        base = {"ne": ("eq", True), "isnot": ("is", True), "notin": ("in", True)}.get(h[1])
+        if base:
+            return ("cmp", base[0], tuple(x.key() for x in a)), True
+        if h[1] == "le":
+            return ("cmp", "lt", (a[1].key(), a[0].key())), True
+        return ("cmp", h[1], tuple(x.key() for x in a)), False
+    return ("term", t.key()), False
+
+
+def _eval_bool(ctx, t, env, props=None):
+    """truth value of a Boolean term (and/or/not over eq/ne/lt/le comparisons of numeric terms) or None.
+    With `props` (dict), opaque Boolean sub-terms are looked up there as propositional variables; a missing
+    variable is recorded with value None (so that the caller can enumerate it)."""
+    h = ctx.head_of(t)
+    if h is not None:
+        a = ctx.args_of(t)
+        if h[0] == "const" and isinstance(h[1], bool):
+            return h[1]
+        if h[0] in ("and", "or"):
+            vals = [_eval_bool(ctx, x, env, props) for x in a]
+            if any(x is None for x in vals):
+                return None
+            return all(vals) if h[0] == "and" else any(vals)
+        if h[0] == "not":
+            x = _eval_bool(ctx, a[0], env, props)
+            return None if x is None else not x
+        if h[0] == "cmp" and h[1] in ("eq", "ne", "lt", "le"):
+            x, y = _eval_rat(ctx, a[0], env), _eval_rat(ctx, a[1], env)
+            if x is not None and y is not None:
+                return {"eq": x == y, "ne": x != y, "lt": x < y, "le": x <= y}[h[1]]
     val = _eval_rat(ctx, t, env)
-    return None if val is None else bool(val)
+    if val is not None:
+        return bool(val)
+    if props is None:
+        return None
+    key, neg = _prop_key(ctx, t)
+    if key not in props:
+        props[key] = None
+        return None
+    b = props[key]
+    if b is None:
+        return None
+    return (not b) if neg else b
 
 
 def order_equiv(ctx, t1, t2, variables, pre=None, lo=1):
-    """Are two Boolean terms over integer quantities `variables` (terms, each a single atom) the same predicate?
-    Both terms touch the quantities only through comparisons with each other and with integer constants, so the
-    finitely many order types over {lo .. max constant + 2} decide the question.  `pre(values tuple)` restricts the
-    assignments (a precondition established earlier on every path).  -> True / False / None (not decidable here:
-    some other atom occurs)."""
+    """Are two Boolean terms the same predicate?  Integer quantities `variables` (terms, each a single atom) occur
+    only in comparisons with each other and with integer constants, so the finitely many order types over
+    {lo .. max constant + 2} decide their part; every other Boolean sub-term (type tests, `is None`, opaque
+    comparisons) is a propositional variable (complementary comparisons share one) and all assignments are
+    enumerated.  `pre(values tuple)` restricts the integer assignments (a precondition established earlier on every
+    path).  -> True / False / None (too many variables)."""
     import itertools
     from fractions import Fraction
     ids = []
@@ -823,16 +849,60 @@ def order_equiv(ctx, t1, t2, variables, pre=None, lo=1):
             rs.extend(ctx.atoms[a][1])
         for r in rs:
             for c in coeffs(r):
-                hi = max(hi, int(abs(c)) + 2)
+                if c.denominator == 1:
+                    hi = max(hi, int(abs(c)) + 2)
     if hi > 12:
+        return None
+    # discover the propositional variables
+    props = {}
+    probe = {i: Fraction(lo) for i in ids}
+    for _ in range(64):
+        before = len(props)
+        for t in (t1, t2):
+            _eval_bool(ctx, t, probe, props)
+        pending = [k for k, b in props.items() if b is None]
+        if not pending and len(props) == before:
+            break
+        for k in pending:
+            props[k] = False
+    keys = sorted(props, key=repr)
+    if len(keys) > 10:
         return None
     for vals in itertools.product(range(lo, hi + 1), repeat=len(ids)):
         if pre is not None and not pre(vals):
             continue
         env = {i: Fraction(x) for i, x in zip(ids, vals)}
-        b1, b2 = _eval_bool(ctx, t1, env), _eval_bool(ctx, t2, env)
-        if b1 is None or b2 is None:
-            return None
-        if b1 != b2:
-            return False
+        for bits in itertools.product((False, True), repeat=len(keys)):
+            pr = dict(zip(keys, bits))
+            n0 = len(pr)
+            b1, b2 = _eval_bool(ctx, t1, env, pr), _eval_bool(ctx, t2, env, pr)
+            if b1 is None or b2 is None or len(pr) != n0:
+                return None     # a variable only visible under this assignment: not decided here
+            if b1 != b2:
+                return False
     return True
+
+
+def cond_equiv(v, t1, t2, variables=(), pre=None, lo=0):
+    """normal-form equality, else the finite propositional / order-type decision"""
+    if v.eq(t1, t2):
+        return True
+    return order_equiv(v.ctx, t1, t2, list(variables), pre=pre, lo=lo) is True
+
+
+def if_stmt_of(v, testexpr):
+    for st in v.stmts():
+        if isinstance(st, (ast.If, ast.While)) and st.test is testexpr:
+            return st
+    raise AnalysisError("internal: test expression without statement")
+
+
+def path_term(v, st):
+    """conjunction of the branch conditions under which statement st is reached"""
+    parts = []
+    for test, pol in v.cfg.path_condition(st):
+        t = v.ev.term(test, at=if_stmt_of(v, test))
+        parts.append(t if pol else v.ev._not(t))
+    if not parts:
+        return v.ctx.mk(("const", True))
+    return v.ev._bool("and", parts)
